@@ -58,6 +58,30 @@ func VfBuildWeighted(prefix string) *VfWorld {
 	return &VfWorld{R: r, ref: ref}
 }
 
+// VfBuildBackup: one next-hop and up to two groups (ids 1, 2) in the default instance; group 2 may name group 1 as
+// its backup and group 1 may name group 2 (a backup cycle when both do).
+func VfBuildBackup(prefix string) *VfWorld {
+	r, ref := vfNewPair(true)
+	g := &vfGen{pfx: prefix}
+	must := func(d *vfOpD) { vfAssume(vfSubmit(r, ref, d) == vfStAcked) }
+	must(&vfOpD{id: g.id(), typ: vfADD, kind: vfKNH, ni: "DEFAULT", idx: 1, hasBody: true})
+	live1, live2 := vfBool(prefix+"g1.live"), vfBool(prefix+"g2.live")
+	if live1 {
+		must(&vfOpD{id: g.id(), typ: vfADD, kind: vfKNHG, ni: "DEFAULT", idx: 1, hasBody: true, members: []vfMember{{idx: 1}}})
+	}
+	if live2 {
+		d := &vfOpD{id: g.id(), typ: vfADD, kind: vfKNHG, ni: "DEFAULT", idx: 2, hasBody: true, members: []vfMember{{idx: 1}}}
+		if live1 && vfBool(prefix+"g2.backup-is-g1") {
+			d.hasBackup, d.backup = true, 1
+		}
+		must(d)
+	}
+	if live1 && live2 && vfBool(prefix+"g1.backup-is-g2") {
+		must(&vfOpD{id: g.id(), typ: vfADD, kind: vfKNHG, ni: "DEFAULT", idx: 1, hasBody: true, members: []vfMember{{idx: 1}}, hasBackup: true, backup: 2})
+	}
+	return &VfWorld{R: r, ref: ref}
+}
+
 // VfEmpty: an empty RIB with the same instances (the intended state of a tear-down).
 func VfEmpty() *VfWorld {
 	r, ref := vfNewPair(true)
